@@ -84,6 +84,17 @@ class SimDisk(object):
         buf[offset : offset + len(data)] = data
         self._event(path, kind, offset, data)
 
+    def truncate_to(self, path, size):
+        buf = self.files[path]
+        if size == len(buf):
+            return
+        self._maybe_crash(path, "resize", size, b"")
+        if size < len(buf):
+            del buf[size:]
+        else:
+            buf.extend(b"\0" * (size - len(buf)))
+        self._event(path, "resize", size, b"")
+
     # -- helpers for oracles -------------------------------------------------
     def digest(self):
         h = hashlib.sha256()
@@ -112,6 +123,12 @@ class SimDisk(object):
             last = i == k - 1
             if kind in ("create", "truncate"):
                 files[path] = bytearray()
+            elif kind == "resize":
+                buf = files[path]
+                if off < len(buf):
+                    del buf[off:]
+                else:
+                    buf.extend(b"\0" * (off - len(buf)))
             elif kind in ("append", "rewrite", "anomalous", "append-torn"):
                 buf = files[path]
                 if last and torn_bytes is not None and kind == "append":
@@ -179,6 +196,27 @@ class SimFile(object):
 
     def flush(self):
         self._check()
+
+    def truncate(self, size=None):
+        self._check()
+        if size is None:
+            size = self.pos
+        self.disk.truncate_to(self.path, size)
+        return size
+
+    def readable(self):
+        return True
+
+    def writable(self):
+        return True
+
+    def seekable(self):
+        return True
+
+    def readinto(self, b):
+        data = self.read(len(b))
+        b[: len(data)] = data
+        return len(data)
 
     def fileno(self):
         raise OSError("SimFile has no file descriptor")
